@@ -3,6 +3,7 @@
 package checks
 
 import (
+	"os"
 	"testing"
 
 	"pgregory.net/rapid"
@@ -154,19 +155,22 @@ func drawOverrideHistory(rt *rapid.T, c cfg.Config, maxLen int) []fx.Op {
 
 func TestC15(t *testing.T) {
 	col := ev.Get()
-	var rc behCase
-	if replayPayload(t, &rc) {
+	stored := func(path string) {
+		var rc behCase
+		loadRegress(t, path, &rc)
 		if len(rc.Members) == 1 && len(rc.Members[0].Script.Ops) == 0 && len(rc.Members[0].Files) == 1 {
 			verdictEvalAndClean(t, cfgCase{C: rc.Members[0].Files[0], Style: rc.Members[0].Style})
 			return
 		}
 		behBatch(t, rc, c15NonTrivial, c15Check, nil)
+	}
+	if p := os.Getenv("VERIF_REPLAY"); p != "" {
+		stored(p)
+		col.Complete()
 		return
 	}
 	for _, f := range regressFiles("C15") {
-		var c behCase
-		loadRegress(t, f, &c)
-		behBatch(t, c, c15NonTrivial, c15Check, nil)
+		stored(f)
 		col.Label("regress")
 	}
 
